@@ -108,6 +108,36 @@ func readRecord(conn net.Conn) ([]byte, error) {
 	return record[:n+nn], err
 }
 
+// maxHandshakeLength is the largest ClientHello that is reassembled. It is the
+// limit crypto/tls applies to handshake messages.
+const maxHandshakeLength = 65536
+
+// readFragments completes a ClientHello that the client split across several
+// records (RFC 8446 Section 5.1). record is the first handshake record. The
+// result has the same layout, a 5-byte header followed by the whole message,
+// but can be larger than a record.
+func readFragments(conn net.Conn, record []byte) ([]byte, error) {
+	for {
+		if msg := record[5:]; len(msg) >= 4 {
+			length := 4 + (int(msg[1])<<16 | int(msg[2])<<8 | int(msg[3]))
+			if length > maxHandshakeLength {
+				return record, fmt.Errorf("%w: handshake message length %d > %d", ErrDecodeError, length, maxHandshakeLength)
+			}
+			if len(msg) >= length {
+				return record, nil
+			}
+		}
+		next, err := readRecord(conn)
+		if err != nil {
+			return record, err
+		}
+		if next[0] != 22 || len(next) == 5 {
+			return record, fmt.Errorf("%w: content type %d in a fragmented handshake message", ErrUnexpectedMessage, next[0])
+		}
+		record = append(record, next[5:]...)
+	}
+}
+
 func convertErrorsToAlerts(conn net.Conn, err error) {
 	switch {
 	case err == nil:
